@@ -54,7 +54,7 @@ func cmBuild(id int, raw json.RawMessage) *Job {
 		return nil
 	}
 	var sb strings.Builder
-	sb.WriteString("local tb = {}\n\n")
+	sb.WriteString("local tb = {}\nlocal seed = 7\n\n")
 	d := &cmData{tc: &tc}
 	// the model's text ids are only identities; which script a text is written in rotates with the file
 	rot := int(hash64(string(raw), cmSeed) % 6)
@@ -98,6 +98,10 @@ func cmBuild(id int, raw json.RawMessage) *Job {
 			case "gfunc":
 				name = fmt.Sprintf("f%d", l.ID)
 				stmt = fmt.Sprintf("function %s(pa, pb) end", name)
+			case "gfromlocal":
+				// a global whose value is read from a local: still a global
+				name = fmt.Sprintf("g%d", l.ID)
+				stmt = fmt.Sprintf("%s = seed", name)
 			case "gfuncv":
 				name = fmt.Sprintf("f%d", l.ID)
 				stmt = fmt.Sprintf("function %s(...) end", name)
@@ -132,17 +136,23 @@ func cmBuild(id int, raw json.RawMessage) *Job {
 	nlines := strings.Count(sb.String(), "\n")
 	sb.WriteString(last)
 	d.text = sb.String()
+
 	// the globals are also used from a second file: the same label and documentation are due there
 	other := "local z = 0 -- " + cmText[(rot+4)%6+1] + "\nprint(z"
 	for i := range d.decls {
 		d.decls[i].col2 = -1
-		if k := d.decls[i].line.Kind; k == "global" || k == "gfunc" || k == "gfuncv" {
+		if k := d.decls[i].line.Kind; k == "global" || k == "gfunc" || k == "gfuncv" || k == "gfromlocal" {
 			other += ", "
 			d.decls[i].col2 = len(other) - len("local z = 0 -- "+cmText[(rot+4)%6+1]+"\n")
 			other += d.decls[i].name
 		}
 	}
 	other += ")\n"
+	if (rot/2)%2 == 1 {
+		// every second file is written with CRLF line ends (positions are per line; the text must come back without CR)
+		d.text = strings.ReplaceAll(d.text, "\n", "\r\n")
+		other = strings.ReplaceAll(other, "\n", "\r\n")
+	}
 	pc := &proto.Case{ID: id, Files: map[string]string{"f.lua": d.text, "u.lua": other}, Init: json.RawMessage(allOnLocal)}
 	pc.Steps = append(pc.Steps, openStep("f.lua", d.text), openStep("u.lua", other))
 	for i := range d.decls {
@@ -239,6 +249,10 @@ func cmJudge(c *Ctx, j *Job, res *proto.Result) {
 				if !strings.Contains(label, "function") || a < 0 || b < a {
 					prob = append(prob, fmt.Sprintf("label %q does not show the parameter list (pa, pb) as written", label))
 				}
+			case "gfromlocal":
+				if !dc.line.Unspec && strings.HasPrefix(label, "local ") {
+					prob = append(prob, fmt.Sprintf("label %q presents the global as a local", label))
+				}
 			case "gfuncv":
 				if !dc.line.Unspec && (!strings.Contains(label, "function") || !strings.Contains(label, "...")) {
 					prob = append(prob, fmt.Sprintf("label %q does not show the parameter list (...) as written", label))
@@ -294,7 +308,7 @@ func checkC13(c *Ctx) {
 	}
 	cmSeed = c.Seed
 	p := c.NewPool(0)
-	cfg := fmt.Sprintf("CONSTANTS\n  MaxLines = %d\n  Texts = {1,2}\n  DeclKinds = {\"local\",\"global\",\"gfunc\",\"gfuncv\",\"lfuncv\",\"member\"}\nINIT Init\nNEXT Next\nINVARIANTS AccShort DocRule Emit\nCHECK_DEADLOCK FALSE\n", ml)
+	cfg := fmt.Sprintf("CONSTANTS\n  MaxLines = %d\n  Texts = {1,2}\n  DeclKinds = {\"local\",\"global\",\"gfromlocal\",\"gfunc\",\"gfuncv\",\"lfuncv\",\"member\"}\nINIT Init\nNEXT Next\nINVARIANTS AccShort DocRule Emit\nCHECK_DEADLOCK FALSE\n", ml)
 	if c.Replay != "" {
 		raw, err := loadReplayCase(c.Replay)
 		if err != nil {
